@@ -4,11 +4,13 @@ across fresh processes and worker counts {1, 5, 16} (and serial execution).
 usage: determinism.py [seeds] [props...]   -> writes /verif/evidence/determinism.json, exit 1 on any divergence"""
 import subprocess, sys, os, json, time
 BIN = "/verif/sim/target/release/gmsim"
-LIGHT = {"C03": 40, "C04": 3, "C05": 40, "C06": 3, "C08": 40, "C15": 120, "C19": 700, "C20": 40, "C14": 120}
-HEAVY = {"C09": 160, "C10": 310, "C17": 70}
+# runs per batch; 0 = the whole quick batch (needed to reach the two-caller / isolated / long-history runs,
+# which sit at the end of a batch)
+LIGHT = {"C03": 0, "C04": 3, "C05": 0, "C06": 3, "C08": 0, "C15": 0, "C19": 700, "C20": 0, "C14": 300}
+HEAVY = {"C09": 0, "C10": 0, "C17": 0}
 def digest(prop, seed, threads, runs, serial=False):
-    env = dict(os.environ, VERIF_SEED=str(seed), RAYON_NUM_THREADS=str(threads))
-    cmd = [BIN, "digest", prop, "quick", "--runs", str(runs)] + (["--serial"] if serial else [])
+    env = dict(os.environ, VERIF_SEED=str(seed), GMSIM_WORKERS=str(threads), GMSIM_VERIF_DIR="/verif")
+    cmd = [BIN, "digest", prop, "quick"] + (["--runs", str(runs)] if runs else []) + (["--serial"] if serial else [])
     out = subprocess.run(cmd, env=env, capture_output=True, text=True)
     if out.returncode != 0:
         raise SystemExit(f"digest failed: {cmd} {out.stderr}")
@@ -18,8 +20,8 @@ def main():
     props = sys.argv[2:] or list(LIGHT) + list(HEAVY)
     t0 = time.time(); rows = []; bad = 0
     for prop in props:
-        runs = LIGHT.get(prop) or HEAVY.get(prop)
-        ns = nseeds if prop in LIGHT else max(4, nseeds // 8)
+        runs = LIGHT.get(prop, 0) if prop in LIGHT else HEAVY.get(prop, 0)
+        ns = nseeds if prop in LIGHT else max(2, nseeds // 4)
         for seed in range(1, ns + 1):
             ds = [digest(prop, seed, 16, runs), digest(prop, seed, 16, runs), digest(prop, seed, 5, runs), digest(prop, seed, 1, runs, serial=True)]
             ok = len(set(ds)) == 1
@@ -28,7 +30,7 @@ def main():
             if not ok:
                 print("DIVERGENCE", prop, seed, ds)
         print(prop, "ok" if not bad else "DIVERGED", f"{ns} seeds x 4 executions (16,16,5 workers; serial), runs={runs}", flush=True)
-    json.dump({"seeds_per_light_property": nseeds, "executions_per_seed": 4, "worker_counts": [16, 16, 5, "serial"],
+    json.dump({"seeds_per_light_property": nseeds, "executions_per_seed": 4, "worker_counts": [16, 16, 5, "serial (all runs in one process, no worker processes)"], "note": "workers are processes; isolated runs get a process of their own in the parallel executions and share the one process in the serial execution",
                "divergences": bad, "wall_s": round(time.time() - t0, 1), "rows": rows}, open("/verif/evidence/determinism.json", "w"), indent=0)
     sys.exit(1 if bad else 0)
 main()
